@@ -156,10 +156,11 @@ def run_one(job: dict, base: Path) -> dict:
     except BaseException as ex:   # noqa
         obs['rerun_ok'], obs['rerun_val'] = False, 'none'
         obs['rerun_exc'] = type(ex).__name__
-    obs['ops'] = role_ops(ops) if not plan['mode'].startswith('line') else []
+    coarse = plan['mode'].startswith('line') or plan['mode'].startswith('audit')
+    obs['ops'] = role_ops(ops) if not coarse else []
     obs['raw_ops'] = ops[:400]
-    obs['nops'] = count if not plan['mode'].startswith('line') else len(ops)
-    obs['fault_free'] = plan['mode'] in ('record', 'line-record') and shape != 'unpicklable'
+    obs['nops'] = count if not coarse else len(ops)
+    obs['fault_free'] = plan['mode'] in ('record', 'line-record', 'audit-record') and shape != 'unpicklable'
     # raise modes: the injector says whether the fault was raised (serial backend: same process); kills: the worker died
     obs['fault_hit'] = (plan['mode'] == 'inherent') or (hit_here > 0 if 'raise' in plan['mode'] else
                                                         (plan.get('at', 0) > 0 and (task_failed or raised != '')))
@@ -181,6 +182,17 @@ def expand(job: dict, base: Path) -> list:
         rec['fault_hit'] = True
         return out
     n = rec['nops']
+    if job['plan']['mode'] == 'audit-record':
+        # one kill just before every filesystem mutation of the save, under the recorded directory order
+        for k in range(1, n + 1):
+            j = dict(job)
+            j['plan'] = dict(mode='audit-kill', at=k, order=job['plan'].get('order'), sig=9)
+            j['id'] = f'{job["id"]}-audit-kill{k}'
+            j.pop('expand')
+            o = run_one(j, base)
+            o['op'] = rec['raw_ops'][k - 1] if k - 1 < len(rec['raw_ops']) else ''
+            out.append(o)
+        return out
     line = job['plan']['mode'] == 'line-record'
     ks = list(range(1, n + 1))
     limit = job.get('limit')
